@@ -56,3 +56,63 @@ Theorem C02_bell_after : forall s tail es r n,
   Drain s PConnection tail es r n -> Drain s PConnection ([2] ++ tail) ([EBell] ++ es) r (S n).
 Proof. exact bell_step. Qed.
 Print Assumptions C02_bell_after.
+
+From VD Require Import Base.PixFmt Gen.Tables Proofs.RreP Proofs.UpdateP.
+
+(** RRE (7.7.3): the subrectangle count, the background pixel and (pixel, x, y, w, h) per subrectangle
+    are consumed exactly; the client fills the rectangle with the background and then every
+    subrectangle, in order, at the rectangle's offset - for every count (0 included), every position,
+    size and colour, and every tail. *)
+Theorem C02_rre_roundtrip : forall s x y w h bg subs tail s2 p2 es2 es r n,
+  u16ok x -> u16ok y -> u16ok w -> u16ok h -> rects s <> 0 -> 0 <= bypp s ->
+  let s1 := enter_rect s x y w h in
+  len bg = bypp s -> len subs < 4294967296 -> Forall (sub16_ok (bypp s)) subs ->
+  fill_ok s1 (x, y, w, h, bg) -> Forall (fill_ok s1) (map (sub_fill x y) subs) ->
+  do_connection s1 = Ok s2 (Some p2) es2 ->
+  Drain s2 p2 tail es r n ->
+  Drain s PRect (wire_rre x y w h bg subs ++ tail)
+        ([EFill x y w h bg] ++ map fill_ev (map (sub_fill x y) subs) ++ es2 ++ es) r
+        (match subs with [] => 2 | _ => 3 end + n).
+Proof. exact rre_roundtrip. Qed.
+Print Assumptions C02_rre_roundtrip.
+
+(** CoRRE: the same with one-byte subrectangle coordinates. *)
+Theorem C02_corre_roundtrip : forall s x y w h bg subs tail s2 p2 es2 es r n,
+  u16ok x -> u16ok y -> u16ok w -> u16ok h -> rects s <> 0 -> 0 <= bypp s ->
+  let s1 := enter_rect s x y w h in
+  len bg = bypp s -> len subs < 4294967296 -> Forall (sub8_ok (bypp s)) subs ->
+  fill_ok s1 (x, y, w, h, bg) -> Forall (fill_ok s1) (map (sub_fill x y) subs) ->
+  do_connection s1 = Ok s2 (Some p2) es2 ->
+  Drain s2 p2 tail es r n ->
+  Drain s PRect (wire_corre x y w h bg subs ++ tail)
+        ([EFill x y w h bg] ++ map fill_ev (map (sub_fill x y) subs) ++ es2 ++ es) r
+        (match subs with [] => 2 | _ => 3 end + n).
+Proof. exact corre_roundtrip. Qed.
+Print Assumptions C02_corre_roundtrip.
+
+(** A whole FramebufferUpdate mixing Raw, CopyRect, RRE and CoRRE rectangles in any order. *)
+Theorem C02_update_four_encodings : forall s pad rs tail es r n,
+  rs <> [] -> len rs < 65536 -> 0 <= bypp s -> Forall (qok s) rs ->
+  let sf := after_qrects (start_update s (len rs)) rs in
+  let '(sc, ces) := commit sf in
+  Drain sc PConnection tail es r n ->
+  Drain s PConnection ([0; pad] ++ be_enc 2 (len rs) ++ concat (map qwire rs) ++ tail)
+        ([EBegin] ++ concat (map qevents rs) ++ ces ++ es) r (2 + sum_steps rs + n).
+Proof. exact qupdate_roundtrip. Qed.
+Print Assumptions C02_update_four_encodings.
+
+(** The premises are met: a library client on an RGB32 server, one update with an RRE rectangle of two
+    subrectangles, a CoRRE rectangle without any, a Raw and a CopyRect rectangle. *)
+Example C02_four_encodings_nonvacuous :
+  let c := mk_cfg 1 1 None [] [] false false false false false 0 [] in
+  let s := mk_st c None None (3, 8) (3, 8) 0 [] RGB32 MRGBX 8 8 false 0 0 [] [] [] false in
+  let rs := [ QRre 1 1 4 4 [9; 9; 9; 0] [([1; 2; 3; 0], 0, 0, 2, 1); ([4; 5; 6; 0], 1, 2, 1, 1)];
+              QCorre 0 0 2 2 [7; 7; 7; 0] [];
+              QRaw 0 0 1 1 [1; 1; 1; 0];
+              QCopy 2 2 1 1 0 0 ] in
+  0 <= bypp s /\ Forall (qok s) rs /\ rs <> [] /\ len rs < 65536.
+Proof.
+  cbv zeta. split; [vm_compute; discriminate|]. split.
+  - repeat constructor; vm_compute; try reflexivity; try (split; discriminate || reflexivity); intuition discriminate.
+  - split; [discriminate|reflexivity].
+Qed.
